@@ -95,6 +95,10 @@ def install():
         if name.startswith("mysensors"):
             mod.open = simfs.FsHolder.open
     mysensors.task.timer = kernel.sim_timer
+    # the two attributes that sender, reader, connect thread and the application's stop()/disconnect() share: every read
+    # is a pre-emption candidate (line events cannot split "if self.protocol and self.protocol.transport")
+    kernel.instrument_shared_attr(mysensors.transport.Transport, "protocol")
+    kernel.instrument_shared_attr(mysensors.transport.BaseMySensorsProtocol, "transport")
     mysensors.gateway_serial.serial = devices.SerialShim
     mysensors.gateway_serial.serial_asyncio = aio.SerialAsyncioShim
     mysensors.gateway_tcp.socket = devices.SocketShim
